@@ -67,6 +67,16 @@ pub fn enc_string(s: &str) -> Vec<u8> {
     out
 }
 
+/// The `Arguments` dictionary a generator receives after the request.
+pub fn enc_args(args: &[(String, String)]) -> Vec<u8> {
+    let mut out = enc_varuint(args.len() as u64).expect("argument count");
+    for (k, v) in args {
+        out.extend(enc_string(k));
+        out.extend(enc_string(v));
+    }
+    out
+}
+
 // ------------------------------------------------------------------------------------------
 // Decoding (cursor = `&mut &[u8]`; None = reject, cursor position then unspecified)
 // ------------------------------------------------------------------------------------------
